@@ -27,7 +27,7 @@ def main():
     assert os.path.realpath(desper.__file__).startswith(os.path.realpath(repo) + os.sep), \
         'desper imported from %s, not from %s' % (desper.__file__, repo)
     signal.signal(signal.SIGALRM, _alarm)
-    limit = getattr(prop, 'CASE_TIMEOUT', 5)
+    limit = getattr(prop, 'CASE_TIMEOUT', 5) * int(os.environ.get('VERIF_TIMEOUT_SCALE', '1'))
     real_out = sys.stdout
     sys.stdout = sys.stderr         # callbacks must not pollute the protocol
     for line in sys.stdin:
